@@ -36,7 +36,7 @@ pub const REQUIRED: &[&str] = &[
 
 pub fn run(cx: &mut Ctx) {
     cx.require(REQUIRED);
-    cx.rule = "1..=4 layer directories under /verif/.scratch with generated trees (same path in several layers, files shadowing directories of other layers, empty directories, files at localized locations; compressed-suffix files holding reference-encoded LZ10/LZ11/0x13/stored streams or garbage; reference-built bin archives in both byte orders, pack and arc files); histories of 10..=60 calls over write/read/exists/file_exists/directory_exists/resolve/create_dir/list/subdirectories/write_archive/read_archive/write_text_archive/read_text_archive/read_fe9_arc/read_arc/read_ctpk|bch|cgfx|tpl_textures on relative paths of plain components, localized and not, for games FE9/FE10/FE13/FE14/FE15 x all 8 languages. After EVERY call the full tree of every layer directory is read back: lower layers must be bit-identical, the top layer must equal the model; results are compared with a top-down search of the model; files written under a compressed suffix are validated by the reference LZ decoder; read-after-write is checked after every write. non-trivial = history with a write that shadows a lower-layer file and a later read of that path; distinct by history hash".into();
+    cx.rule = "1..=4 layer directories under /verif/.scratch with generated trees (same path in several layers, files shadowing directories of other layers, empty directories, files at localized locations; compressed-suffix files holding reference-encoded LZ10/LZ11/0x13/stored streams or garbage; reference-built bin archives in both byte orders, pack and arc files); histories of 10..=60 calls over write/read/exists/file_exists/directory_exists/resolve/create_dir/list/subdirectories/write_archive/read_archive/write_text_archive/read_text_archive/read_fe9_arc/read_arc/read_ctpk|bch|cgfx|tpl_textures on relative paths of plain components, localized and not, for games FE9/FE10/FE13/FE14/FE15 x all 8 languages. After EVERY call the full tree of every layer directory is read back: lower layers must be bit-identical, the top layer must equal the model; results are compared with a top-down search of the model; files written under a compressed suffix are validated by the reference LZ decoder; read-after-write is checked after every write. non-trivial = history with a write that shadows a lower-layer file and a later read of that path; file names of 200..255 bytes; files of 2^24-1, 2^24, 2^24+5 bytes; directories with 65..140 entries partly duplicated across layers; 33..45 nested directories; layer directories with non-ASCII names (every fourth world); a failed write on a writable target is a violation unless the payload has 2^24 bytes or more under the compressed suffix; distinct by history hash".into();
     cx.case("unsupported_games_rejected", |c| {
         c.sit("unsupported_games_rejected");
         let dir = fsx::scratch_dir().join("unsupported");
